@@ -313,17 +313,25 @@ Proof.
   rewrite Hoff. unfold nthd. rewrite concat_slice by lia. reflexivity.
 Qed.
 
-(* sequence: per-chromosome lookup; the pinned strand selection fails when every interval has length 1 *)
-Theorem seq_partial : forall vals stranded es,
-  (stranded = false \/ len es < len (concat (map (fun e => slice (e_start e) (e_stop e) (nthd [] vals (e_chr e))) es))) ->
-  model_seq vals stranded es = RRows (spec_seq vals stranded es).
+(* sequence: per-chromosome lookup, all rows reverse-complemented, row-wise choice on the strand — for EVERY interval set
+   (any number of intervals, empty ones, all of length 1): the code in force since the np.where repair *)
+Theorem seq_full : forall vals stranded es, model_seq vals stranded es = RRows (spec_seq vals stranded es).
 Proof.
-  intros vals stranded es H. unfold model_seq.
+  intros vals stranded es. unfold model_seq, spec_seq. cbv zeta. f_equal.
+  induction es as [|e es IH]; [reflexivity|]. cbn [map combine fst snd]. rewrite IH. f_equal.
+  destruct stranded, (e_fwd e); reflexivity.
+Qed.
+(* HISTORY: the pinned strand selection (column mask) failed when there were at least as many intervals as bases *)
+Theorem seq_pinned_partial : forall vals stranded es,
+  (stranded = false \/ len es < len (concat (map (fun e => slice (e_start e) (e_stop e) (nthd [] vals (e_chr e))) es))) ->
+  model_seq_pinned vals stranded es = RRows (spec_seq vals stranded es).
+Proof.
+  intros vals stranded es H. unfold model_seq_pinned.
   replace (stranded && _) with false; [reflexivity|].
   destruct H as [->|H]; [reflexivity|]. symmetry. apply andb_false_iff. right.
   apply Z.leb_gt. unfold len in *. rewrite map_length. exact H.
 Qed.
-Theorem seq_refuted : exists vals es, model_seq vals true es <> RRows (spec_seq vals true es).
+Theorem seq_pinned_refuted : exists vals es, model_seq_pinned vals true es <> RRows (spec_seq vals true es).
 Proof. exists [[65; 67; 71]], [mk 0 0 1]. vm_compute. discriminate. Qed.
 
 (* ------------------------------------------------------------------ row-wise operations *)
